@@ -1,6 +1,6 @@
 (* Property predicates, evaluated on what a reader sees (pdoc) for a given document state. *)
 From Coq Require Import Ascii String.
-From Coq Require Import List NArith ZArith QArith Bool Arith.
+From Coq Require Import List NArith ZArith QArith Qabs Bool Arith.
 From V Require Import Str Num Tok Tables Items Read Decode WellFormed Doc Broadcast TextConv Encode
      Paginate GroupBy Pipeline Figure Document.
 Import ListNotations.
@@ -416,4 +416,56 @@ Definition check_c06 (d : doc) (pd : pdoc) : nat :=
       let pages := observed_pages pd in
       c06_pages d [] 0 false pages 0 (length pages)
     | CMulti _ => 0
+    end.
+
+(* ---- C08 ---- *)
+Definition row_xs (r : row) : list Z := map ce_x (rw_cells r).
+Definition last_x (r : row) : option Z := last_opt (row_xs r).
+
+(* exact boundaries 1440 * W * S_i / T of the displayed columns *)
+Definition exact_bounds (rel : list Q) (W : Q) : list Q :=
+  map (fun c => c * (1440 # 1))%Q (col_widths rel W).
+
+Definition within_half (x : Z) (q : Q) : bool :=
+  Qle_bool (Qabs ((x # 1) - q)) (1 # 2).
+
+Definition displayed_rel (f : frame) (b : body) : list Q :=
+  let '(pf, pattrs, _) := prepare f b in
+  match a_crw pattrs with
+  | Some ((_ :: _) as l) => l
+  | _ => repeat (1 # 1)%Q (length (f_cols pf))
+  end.
+
+(* clause ids: 1 some row does not end at twip(col_width); 2 a data-row boundary is more than half a twip
+   from its proportional position (so widths are off by more than one twip); 3 an inherited header row
+   is not aligned cell by cell with the data rows of its section; 4 boundaries not increasing *)
+Definition check_c08 (d : doc) (pd : pdoc) (inherited : list bool) : nat :=
+  let W := p_col_width (d_page d) in
+  let rows := rows_of (pd_items pd) in
+  if negb (all_b (fun r => match last_x r with Some x => Z.eqb x (twip W) | None => false end) rows) then 1
+  else if negb (all_b (fun r => let xs := row_xs r in
+                                all2 Z.ltb (removelast xs) (tl xs) && match xs with x :: _ => (0 <? x)%Z | [] => false end) rows)
+       then 4
+  else
+    match d_content d with
+    | CSingle f b =>
+      let bounds := exact_bounds (displayed_rel f b) W in
+      let drows := map snd (all_data_rows pd) in
+      if negb (all_b (fun r => all2 within_half (row_xs r) bounds) drows) then 2
+      else
+        (* header rows in order of appearance on the first page; inherited flags per flat header *)
+        let hdr_rows := filter (fun r => match classify (f_cols f) (IRow r) with RHeader => true | _ => false end)
+                               (rows_of (hd [] (observed_pages pd))) in
+        let flags := flat_map (fun ob => match ob with (Some h, fl) =>
+                                  match h_text h with Some _ => [fl] | None => if b_as_colheader b then [fl] else [] end
+                                | (None, _) => [] end)
+                              (combine (flat_headers (d_headers d)) inherited) in
+        match drows with
+        | [] => 0
+        | d0 :: _ =>
+          if all2 (fun r fl => negb fl || negb (Nat.eqb (length (rw_cells r)) (length (rw_cells d0)))
+                               || list_eqb Z.eqb (row_xs r) (row_xs d0)) hdr_rows (firstn (length hdr_rows) (flags ++ repeat false (length hdr_rows)))
+          then 0 else 3
+        end
+    | _ => 0
     end.
